@@ -215,6 +215,10 @@ def runBody (F : BodyFn) (t : PTask) (fs : FS) : FS × Bool :=
       writeDir F t.id j src ds sl.pat n fs) fs1
   (fs2, t.failsLate)
 
+/-- A task defined by a generator has the signature of a task of the session, or two defined tasks share one. -/
+def nameClash (ts : List PTask) (kids : List PTask) : Bool :=
+  kids.any (fun k => (findTask ts k.id).isSome) || !Sorter.nodupB (kids.map (·.id))
+
 /-- `provisional.pytask_execute_task` for a generator: call it, collect what it defined, re-create the DAG.
 `RuntimeError` when it defined nothing. Returns (session, raised). -/
 def genExecute (Y : YieldFn) (s : Sess) (tk : PTask) : Sess × Bool :=
@@ -224,6 +228,8 @@ def genExecute (Y : YieldFn) (s : Sess) (tk : PTask) : Sess × Bool :=
   if kids.isEmpty then (s1, true) else
   -- f1fcb9a: the first collection error of a defined task is raised inside the generator; nothing is added
   if kids.any (·.uncollectable) then (s1, true) else
+  -- 6571c4f: a defined task with the name (signature) of a task of the session or of another defined task: ValueError
+  if nameClash s1.tasks kids then (s1, true) else
   (recreate { s1 with tasks := s1.tasks ++ kids } tk.id, false)
 
 /-- One implementation of `pytask_execute_task`: (session, raised, returned a non-`None` result). -/
